@@ -227,6 +227,8 @@ def run_job(spec):
     """explore one harness instance symbolically; returns a JSON-able result dict"""
     t0 = time.time()
     budget = spec.get('budget_s', 600)
+    if spec.get('deadline'):
+        budget = max(1.0, min(budget, spec['deadline'] - t0))
     res = dict(name=spec['name'], prop=spec['prop'], sig=spec.get('sig', spec['name']), args=jsonable(spec['args']),
                paths=0, decisions=0, forks=0, queries=0, obligations=0, discharged=0, sat=0, unknown=0, twins=0, twins_sat=0,
                solver_s=0.0, final_s=0.0, witness_ok=0, witness_bad=[], cex=[], samples=[], complete=True, error=None,
